@@ -188,6 +188,12 @@ def main(argv=None):
         report.coverage["rule"] = "one relation = one pair (schedule j, schedule 0) of from-scratch builds of one project, or (resumed, fresh)"
         if not v or v["cnt"].get("same_final", 0) < 100:
             report.machinery("vacuous run: too few schedule pairs compared")
+        # Layer G: the file/step state machine (spec/FileStep.tla) model checked and replayed
+        from checks import filestep
+        fs = filestep.run(report, args.tier, args.seed, "C02")
+        report.coverage["filestep"] = fs
+        report.coverage["states"] = report.coverage.get("states", 0) + fs.get("states", 0)
+        report.coverage["traces_validated_against_impl"] = report.coverage.get("traces_validated_against_impl", 0) + fs.get("sequences", 0)
     return report.finish()
 
 
